@@ -88,6 +88,11 @@ NOTES = {
  'C17-s7': 'MISSED (float64 factors only); caught after the kind and dtype of the factor became an axis of the function route (one-hot / small integers as float64, float32, int64, int32)',
  'C18-s7': 'MISSED (no nearly uniform shapes); caught after the family v = m(1 + s u), s = 1e-2 .. 1e-8, collinear and with a small non-collinear part, times every scale of the catalogue was added',
  'C19-s7': 'MISSED (unknown labels were invented strings); caught after the corruption family "label borrowed from another table" was added (constraint names, mapping tokens, point numbers as strings, raw reference-channel names) for geo2 and geo1',
+ 'C12-s8': 'MISSED (matrices read without a copy, and the reference value came from a build_hank call that rewrote the shared buffer just before the comparison); caught after every observed / reference matrix is copied at the moment of reading and the earlier-return-value-survives-a-later-call comparison was added',
+ 'C17-s8': 'MISSED (retained singular values never closer than a few per cent); caught after the designed-singular-value-gap region (gaps 1.5e-3, 4e-3, 9e-3 between two retained singular values) was added',
+ 'C04-s9': 'MISSED (overlaps 0, 1/4, 1/2, 3/4 only); caught after the decimal overlaps 0.3, 0.6, 0.7, 2/3 on every segment length 40..100 were added to the function route',
+ 'C18-s9': 'MISSED (the two sets were always separate arrays); caught after MAC is also called with the two sets as adjacent / overlapping views of one array',
+ 'C19-s9': 'MISSED (all geometry-2 tables carried the same column headers); caught after the column-header alphabet (4 sets, every triple mapping/sign/points, sign sheet present and omitted, both definition routes) was added',
  'C20-s7': 'MISSED (every figure closed right after judging); caught after "two charts alive at once" was added to the history cases: A is judged again after B was drawn',
  'C20-s2': 'MISSED by the quick tier of the first version of C20 (CMIF with a frequency window only in the thorough tier); caught after the window was added to the quick tier',
 }
